@@ -1138,6 +1138,11 @@ func runConversation(tag string, sc Script) (res Result) {
 			cv.waitTerm("close-reply")
 		}
 	case "drop", "drop-rst":
+		if sc.Mute && sc.Flood > 0 {
+			// the write loop has failed a write (5 s write deadline) and exited while the peer still holds the
+			// connection: everything must be gone before the client does anything
+			muteAccount()
+		}
 		atomic.StoreInt32(&clientClosing, 1)
 		if tc, ok := c.UnderlyingConn().(*net.TCPConn); ok && end == "drop-rst" {
 			tc.SetLinger(0)
